@@ -39,6 +39,8 @@ var c16Lines = []string{
 	"a = 2 ; has { brace",
 	"; \" quote and [ bracket in a comment",
 	"",
+	"; a plain comment line",
+	"b = \"" + strings.Repeat("x", 5000) + "\" ; a line longer than the reader's buffer",
 }
 
 type recParser struct{ inputs []string }
@@ -154,6 +156,7 @@ func c16ScratchDir() string {
 func c16Accumulate(lines []string, mode string) (inputs []string, pan string) {
 	rp := &recParser{}
 	s := c16Session()
+	s.SetFuel(5000000)
 	defer func() {
 		if r := recover(); r != nil {
 			pan = fmt.Sprint(r) + " @" + impl.PanicSite()
@@ -254,6 +257,12 @@ var c16Stmts = []string{
 	"t",
 	"for i <- fromto(0, 2) i",
 	"[t, t + 1][1]",
+	"#\"" + strings.Repeat("y", 5000) + "\" ; a statement longer than 4096 bytes",
+	"w = \"first\n\n; second\nthird\"",
+	"#w",
+	"{\n  inc = (x) -> x + 1\n  1 / 0\n}",
+	"scale = (x) -> x * 100",
+	"inc(1)",
 }
 
 var reportLine = regexp.MustCompile(`^(    \d|--> \d|memory context |= stack =|IP: |=====|corrupt |No debug info)`)
@@ -341,7 +350,7 @@ func c16JudgeScript(bin string, idx []int) (sig, detail string, judged bool) {
 		}
 		out, err := run(m.mode)
 		if err != nil {
-			return "harness:cannot-run-binary", err.Error(), true
+			return binarySig(err, m.mode), fmt.Sprintf("script %q in %s mode: %v", script, m.mode, err), true
 		}
 		if strings.Contains(out, "panic:") || strings.Contains(out, "fatal error:") {
 			return "binary-abort:" + m.mode, fmt.Sprintf("script %q in %s mode aborted: %s", script, m.mode, clipStr(out, 300)), true
@@ -364,8 +373,8 @@ func init() {
 	core.Register(&core.Check{
 		ID:    "C16",
 		Level: "model_checking",
-		Rule: "(a) explicit-state search over all sequences of length <= 5 (quick) / 6 (thorough) of 19 script lines (one-line statements, block openers / closers / else, an array literal and a string split over lines, strings containing { [ } ; an escaped quote and a backslash, comments containing { \" [, blank lines) fed to the real read-eval loop through the real file reader (with and without final newline) and through an in-memory line reader (REPL style) with a recording parser: the inputs handed to the parser must be, token for token, the statements a lexer-aware splitter finds; " +
-			"(b) every script of <= 3 (quick) / 4 (thorough) statements from a 31-statement alphabet (expressions of every value kind, function definitions and calls, multi-line blocks, loops, strings with every special character, a multi-line string, comments, a multi-line array literal, a runtime error, dependent statements) through the built cmd/calc binary in -eval, piped-REPL and file mode (with and without final newline): each mode's output must be what in-process statement-by-statement execution predicts. states = distinct (nesting depth, open string, pending text) accumulator states of the model; transitions = lines fed",
+		Rule: "(a) explicit-state search over all sequences of length <= 4 (quick) / 5 (thorough) of 21 script lines (one-line statements, block openers / closers / else, an array literal and a string split over lines, strings containing { [ } ; an escaped quote and a backslash, comments containing { \" [, blank lines) fed to the real read-eval loop through the real file reader (with and without final newline) and through an in-memory line reader (REPL style) with a recording parser: the inputs handed to the parser must be, token for token, the statements a lexer-aware splitter finds; " +
+			"(b) every script of <= 2 (quick) / 3 (thorough) statements from a 37-statement alphabet (expressions of every value kind, function definitions and calls, multi-line blocks, loops, strings with every special character, a multi-line string, comments, a multi-line array literal, a runtime error, dependent statements) through the built cmd/calc binary in -eval, piped-REPL and file mode (with and without final newline): each mode's output must be what in-process statement-by-statement execution predicts. states = distinct (nesting depth, open string, pending text) accumulator states of the model; transitions = lines fed",
 		Assumptions:     []string{"ill-formed line sequences (a closer without opener, an unfinished block at end of file) are skipped and counted", "runtime error reports are compared on their first line only (addresses and instruction numbers differ between modes)"},
 		NeedsCalcBinary: true,
 		Exec: func(payload string) (string, string) {
@@ -393,9 +402,9 @@ func c16Run(w *core.W) {
 			os.RemoveAll(c16Scratch)
 		}
 	}()
-	maxLines := 5
+	maxLines := 4
 	if w.Thorough() {
-		maxLines = 6
+		maxLines = 5
 	}
 	w.Family("line-accumulator")
 	gen.Seqs(len(c16Lines), 1, maxLines, func(seq []int) bool {
@@ -426,11 +435,15 @@ func c16Run(w *core.W) {
 		return !w.Expired("time budget reached in the line accumulator search")
 	})
 	w.Family("three-modes-binary")
-	maxStmts := 3
+	maxStmts := 2
 	if w.Thorough() {
-		maxStmts = 4
+		maxStmts = 3
 	}
-	gen.Seqs(len(c16Stmts), 1, maxStmts, func(seq []int) bool {
+	setup := len(c16Stmts) - 3 // the statement that binds a function and then fails
+	gen.Seqs(len(c16Stmts), 1, 3, func(seq []int) bool {
+		if len(seq) > maxStmts && seq[0] != setup {
+			return true // quick: all scripts of <= 2 statements, and those of 3 that begin with the failing definition
+		}
 		it := c16Item{Kind: "script", Seq: append([]int{}, seq...)}
 		b, _ := json.Marshal(it)
 		if !w.Mine(string(b)) {
